@@ -34,6 +34,11 @@ type disk struct {
 	loads  int
 	fired  int
 
+	// page-load watch (attribution of the known finding only, see sim.go: tail-page hazard)
+	watchOn  bool
+	watchPg  uint64
+	watchHit bool
+
 	// counters for RunResult.Stats
 	nStore, nLoad, nLoadMiss, nDelete int64
 }
@@ -145,6 +150,9 @@ func (v *view) LoadPage(page uint64) ([]byte, error) {
 	if b == nil {
 		d.nLoadMiss++
 		return nil, nil
+	}
+	if d.watchOn && page == d.watchPg {
+		d.watchHit = true
 	}
 	return append([]byte(nil), b...), nil
 }
